@@ -5,7 +5,8 @@
 EXTENDS Integers, Sequences, FiniteSets, TLC
 
 (* "GetMarkup": the class is that of the value under the media type key (the content itself is a plain string) *)
-Accessors == {"GetAny", "GetString", "GetNumber", "GetObject", "GetList", "GetTime", "GetURL", "GetMediaType", "GetMarkup"}
+Accessors == {"GetAny", "GetString", "GetNumber", "GetObject", "GetList", "GetTime", "GetURL", "GetMediaType", "GetMarkup",
+              "GetMarkupNoBody"}    \* GetMarkup where there is no body (missing, null, empty once sanitised): "absent", whatever the media type key holds
 StrClasses == {"str_empty", "str_plain", "str_format", "str_ctl_only", "str_ctl_mixed", "str_tab_nl", "str_time", "str_url", "str_url_bad", "str_mime", "str_mime_bad",
                "str_mime_junk"}   \* a media type followed by something that is neither a parameter nor a token character (",text/html", " x"):
                                   \* it may be refused or read leniently - then as the media type it starts with
@@ -19,7 +20,8 @@ Absentish(c) == c \in {"missing", "null"}
 EmptyString(c) == c \in {"str_empty", "str_ctl_only"}
 
 Allowed(acc, c) ==
-    IF acc = "GetMarkup" THEN
+    IF acc = "GetMarkupNoBody" THEN {"absent"}
+    ELSE IF acc = "GetMarkup" THEN
         \* no media type (absent, null, empty once sanitised): the default applies; a media type of the wrong JSON type or
         \* one that cannot be parsed is an error, never silently the default; a well-formed one is rendered or unsupported
         IF Absentish(c) \/ EmptyString(c) THEN {"value"}
